@@ -107,7 +107,7 @@ def scope_suite(ctx):
     s.hist = dict(sorted(kinds.items()))
     s.samples.append({"suite": s.name, "skipped": skipped})
     s.note = ("C19.var on the occurrences / scopes / declarations that harness/scoping.py extracts, against the owner scope CPython's symtable reports for the same occurrence "
-              "(comprehension variables: PEP 709 tables no longer list comprehensions, the comprehension owns the names it binds); targeted + generated + repo-example programs + 14 scoping "
+              "(comprehension variables: PEP 709 tables no longer list comprehensions, the comprehension owns the names it binds); targeted + generated + repo-example programs + 15 scoping "
               "programs (class bodies, global / nonlocal chains, walrus in comprehensions, lambdas in defaults, match captures); non-trivial = some name resolves outside its own scope; "
               "histogram = occurrences by where their variable lives")
     return s
@@ -128,6 +128,7 @@ SCOPING_EXTRA = [
     "def f():\n    r = [lambda: i for i in range(3)]\n    s = {k: v for k, v in zip(range(2), range(2)) if k or v}\n    return [q() for q in r], s\nprint(f())\n",
     "def deco(fn):\n    return fn\n@deco\ndef f(x: int = 3) -> int:\n    y: int = x\n    return y\nprint(f())\n",
     "def f():\n    total = 0\n    def add(n):\n        nonlocal total\n        total += n\n    [add(i) for i in range(4)]\n    return total\nprint(f())\n",
+    "import asyncio\nasync def outer(xs):\n    async def inner(v):\n        async with lock:\n            return v + base\n    lock = asyncio.Lock()\n    base = 1\n    return [await inner(x) async for x in agen(xs)]\nasync def agen(xs):\n    for x in xs:\n        yield x\nprint(asyncio.run(outer([1, 2])))\n",
 ]
 
 
@@ -217,7 +218,7 @@ def stress_program(r):
                 out.append(f"{pad}print({name()}, {expr(depth)})")
             elif k == 4 and depth < 3:
                 args = ", ".join(dict.fromkeys(name() for _ in range(r.randint(0, 2))))
-                out.append(f"{pad}def {name()}({args}):")
+                out.append(f"{pad}{'async ' if r.random() < 0.2 else ''}def {name()}({args}):")
                 out.extend(block(depth + 1, "function", ind + 1))
                 out.append(f"{pad}    return {expr(depth)}")
             elif k == 5 and depth < 2:
@@ -312,6 +313,10 @@ RENAME_WITNESSES = [
     "class Base:\n    pass\nclass A(Base):\n    fooBar = 1\n    y = fooBar + 1\nprint(A.y)\n",
     "lastItem = 0\ndef f(items):\n    for lastItem in items:\n        pass\n    lastItem = (lastItem, 1)\n    return lastItem\nprint(f([1, 2]), lastItem)\n",
     "def outer():\n    curVal = 1\n    def bump():\n        nonlocal curVal\n        curVal += 1\n        return curVal\n    return bump() + curVal\nprint(outer())\n",
+    # the same shapes in the other kinds of scope: coroutine, method, nested class
+    "import asyncio\nasync def f():\n    out = []\n    for i in range(3):\n        if i:\n            out.append(lastVal)\n        lastVal = i\n    return out\nprint(asyncio.run(f()))\n",
+    "import asyncio\ntopVal = 2\nasync def g(tmpVal):\n    tmpVal += topVal\n    async def h():\n        return tmpVal + innerVal\n    innerVal = 1\n    return await h()\nprint(asyncio.run(g(1)), topVal)\n",
+    "class Box:\n    def total(self, startVal):\n        for i in range(2):\n            if i:\n                startVal += prevVal\n            prevVal = i + 1\n        return startVal\nprint(Box().total(1))\n",
 ]
 
 
